@@ -10,6 +10,7 @@ from pathlib import Path
 from . import page as pg
 
 ITEM_START = re.compile(r"^[-ox~<>] ")
+EMPTY_ITEM = re.compile(r"^[-ox~<>] (P\d )? *$")
 RULE_START = re.compile(r"^(#{32}|={24}|\+{16}|-{8}) ")
 PRIO = re.compile(r"^([ox~<>]) P(\d) ")
 ZID_TOKEN = re.compile(r"^\d{6}#[0-9A-Za-z]{2,3}$")
@@ -24,7 +25,9 @@ def scan(text: str):
     while i < len(lines) and lines[i].strip() != "":
         i += 1
     while i < len(lines):
-        if ITEM_START.match(lines[i]):
+        if EMPTY_ITEM.match(lines[i]):
+            i += 1  # a prefix with nothing behind it is an item without body: zorg skips it, it is not a note
+        elif ITEM_START.match(lines[i]):
             j = i + 1
             while j < len(lines) and lines[j].startswith("  ") and lines[j].strip() != "":
                 j += 1
